@@ -321,7 +321,15 @@ def features(chain, depth=0, in_unit=False, out=None, state=None):
                 if b['between'] is not None:
                     out.add('branch_mult_between')
                 if any(x['branches'] for x in b['chain']):
-                    out.add('nested_branch_in_mult_unit')
+                    # the expansion of a unit with a nested branch is right (probed on 1000+ strings) exactly when the
+                    # anchor is not the first written node, the unit is repeated twice, it is the anchor's first branch and
+                    # it holds ONE nested branch without further nesting; everything else is the open finding's class
+                    nested = [bb for x in b['chain'] for bb in x['branches']]
+                    simple = (b['mult'] == 2 and k == 0 and not (depth == 0 and idx == 0) and len(nested) == 1
+                              and not any(y['branches'] for y in nested[0]['chain']) and not b['chain'][-1]['branches']
+                              and nested[0]['mult'] == 1 and not nested[0].get('force_mult') and e['mult'] == 1 and not e.get('force_mult')
+                              and all(y['mult'] == 1 and not y.get('force_mult') for y in list(b['chain']) + list(nested[0]['chain'])))
+                    out.add('nested_branch_in_mult_unit_simple' if simple else 'nested_branch_in_mult_unit')
                 if e['rings']:
                     out.add('ring_on_mult_anchor')
                 if k < len(e['branches']) - 1 or k > 0:
